@@ -107,7 +107,7 @@ def fromStructStep (a : FsAcc) (f : Field) : FsAcc :=
     else
       { idx := a.idx + 1, values := a.values ++ [v], named := a.named, typed := mapSet a.typed v.lab.ty v }
 
-inductive SigErr | ptrDepth | notStruct | mix | notFunc | structValue
+inductive SigErr | ptrDepth | notStruct | mix | notFunc | structValue | unrepresentable
 deriving Repr, DecidableEq
 
 /-- `newValueSetFromStruct` for `depth` pointers around a struct with these fields -/
@@ -180,6 +180,24 @@ def markerField : Field := { name := "Struct", tag := "", ty := 0, marker := tru
 
 def newValueSetOfValues (vs : List Label) : Except SigErr ValueSet :=
   newValueSetFromStruct 0 (markerField :: (List.range vs.length).zipWith valueField vs)
+
+/-- a subtype is rendered into a struct tag: a comma would end the option, a quote, backslash or newline
+would end or alter the tag (`NewValueSet` rejects these after the repair of finding F19) -/
+def subtypeOK (s : String) : Bool := !(s.any (fun c => c == ',' || c == '"' || c == '\\' || c == '\n'))
+
+/-- a name becomes an exported struct field name once upper-cased: a letter first, then letters, digits,
+underscores (non-ASCII characters are taken to be letters — the model's case mapping is ASCII) -/
+def identChar (c : Char) : Bool := c.isAlphanum || c == '_' || decide (c.toNat ≥ 128)
+def nameOK (n : String) : Bool :=
+  match (upper n).toList with
+  | [] => true
+  | c :: cs => (c.isUpper || decide (c.toNat ≥ 128)) && cs.all identChar
+
+def labelOK (l : Label) : Bool := subtypeOK l.sub && nameOK l.name
+
+/-- `NewValueSet` with its validation: what cannot be represented in a struct is refused -/
+def newValueSetChecked (vs : List Label) : Except SigErr ValueSet :=
+  if vs.all labelOK then newValueSetOfValues vs else .error .unrepresentable
 
 /-! ### lookups -/
 
